@@ -2,14 +2,14 @@
 EXTENDS Poly, Json, IOUtils, SequencesExt
 ASSUME CalculusOK
 ASSUME SelectOK
+ASSUME OrderOnlyAtSharedBound
 \* sets inside records are serialised as arrays
-Ser(c) == [f |-> c.f, segs |-> c.segs, ps |-> c.ps,
+Ser(c) == [f |-> c.f, segs |-> c.segs, ord |-> c.ord, ps |-> c.ps,
            acc |-> [i \in 1..Len(c.acc) |-> SetToSeq(c.acc[i])], impl |-> c.impl]
+SerAll(S) == LET q == SetToSeq(S) IN [i \in 1..Len(q) |-> Ser(q[i])]
 EmitCases == IF "OUT_FILE" \in DOMAIN IOEnv
              THEN JsonSerialize(IOEnv.OUT_FILE,
-                    [scalar |-> [i \in 1..Cardinality(ScalarCases) |-> Ser(SetToSeq(ScalarCases)[i])],
-                     array  |-> [i \in 1..Cardinality(ArrayCases) |-> Ser(SetToSeq(ArrayCases)[i])],
-                     long   |-> [i \in 1..Cardinality(LongArrayCases) |-> Ser(SetToSeq(LongArrayCases)[i])]])
+                    [scalar |-> SerAll(ScalarCases), array |-> SerAll(ArrayCases), long |-> SerAll(LongArrayCases)])
              ELSE TRUE
 ASSUME EmitCases
 =============================================================================
